@@ -736,8 +736,15 @@ func main() {
 	outCore := flag.String("out-core", "", "sixth output Lean file: the parser core translated statement by statement (PV.FactsCore); not written when empty")
 	outTree := flag.String("out-tree", "", "seventh output Lean file: the tree passes and the evaluation translated statement by statement (PV.FactsTree); not written when empty")
 	outTerm := flag.String("out-term", "", "eighth output Lean file: the terminal parsers of text/terminal translated statement by statement (PV.FactsTerm); not written when empty")
+	outJson := flag.String("out-json", "", "ninth output Lean file: the grammar examples/json/json.NewParser constructs, as a term of the model's grammar type (PV.FactsJson); not written when empty")
 	flag.StringVar(&repo, "repo", "/repo", "repository root")
 	flag.Parse()
+	if *outJson != "" {
+		if err := writeJsonFacts(*outJson); err != nil {
+			fmt.Fprintln(os.Stderr, err)
+			os.Exit(1)
+		}
+	}
 	if *outTerm != "" {
 		if err := writeTermFacts(*outTerm); err != nil {
 			fmt.Fprintln(os.Stderr, err)
